@@ -396,6 +396,9 @@ impl ISocket for DealerSocket {
     }
 
     let sndtimeo_opt = { self.core.core_state.read().options.sndtimeo };
+    // SNDTIMEO bounds the whole wait from here: being woken while another send is (again) in progress
+    // must not restart the interval.
+    let wait_started = tokio::time::Instant::now();
 
     loop {
       let transaction_guard = self.current_send_transaction.lock().await;
@@ -427,7 +430,7 @@ impl ISocket for DealerSocket {
               tokio::select! {
                 biased;
                 _ = closing_signal_future => return Err(ZmqError::InvalidState("Socket is closing while waiting for prior send tx".into())),
-                res = tokio_timeout(duration, notifier_clone.notified()) => {
+                res = tokio::time::timeout_at(wait_started + duration, notifier_clone.notified()) => {
                   if res.is_err() { return Err(ZmqError::Timeout); }
                 }
               }
@@ -631,6 +634,9 @@ impl DealerSocket {
       self.core.handle,
       full_message_parts.len()
     );
+    // SNDTIMEO bounds the whole wait from here: queue activity that leaves no room for this message
+    // must not restart the interval.
+    let wait_started = tokio::time::Instant::now();
     loop {
       if !self.core.is_running() {
         return Err(ZmqError::InvalidState(
@@ -649,7 +655,7 @@ impl DealerSocket {
         Some(duration) if duration.is_zero() => return Err(ZmqError::ResourceLimitReached),
         Some(duration) => {
           let queue_wait_fut = self.outgoing_queue_activity_notifier.notified();
-          if tokio_timeout(duration, queue_wait_fut).await.is_err() {
+          if tokio::time::timeout_at(wait_started + duration, queue_wait_fut).await.is_err() {
             return Err(ZmqError::Timeout);
           }
         }
